@@ -36,6 +36,11 @@ PROPS = {
                           thorough=dict(plain=2400000, asan=240000, tsan=240000)),
                 real=["tlx/thread_pool.cpp", "tlx/thread_pool.hpp", "tlx/delegate.hpp", "tlx/container/simple_vector.hpp"],
                 stub=["std::thread", "std::mutex", "std::condition_variable", "std::atomic (scheduler shims over real ::std objects)"]),
+    "C11": dict(harness="c11_sync", concurrent=True,
+                runs=dict(quick=dict(plain=200000, asan=20000, tsan=20000),
+                          thorough=dict(plain=4000000, asan=400000, tsan=400000)),
+                real=["tlx/semaphore.hpp", "tlx/thread_barrier_mutex.hpp", "tlx/thread_barrier_spin.hpp"],
+                stub=["std::mutex", "std::condition_variable", "std::atomic", "std::this_thread::yield", "std::thread (scheduler shims over real ::std objects)"]),
 }
 
 SIM_NAMES = ["strategy", "param", "pct_k", "spurious_permille", "spurious_budget", "notify_choice",
